@@ -653,6 +653,14 @@ func setFragment(uri *url.URL, params url.Values) string {
 }
 
 func mergeQueryParams(uri *url.URL, params url.Values) string {
+	if _, err := url.ParseQuery(uri.RawQuery); err != nil {
+		// uri.Query() silently drops every pair it cannot parse (e.g. a ';' in a value):
+		// keep such a registered query exactly as it is and append the response parameters
+		if encoded := params.Encode(); encoded != "" {
+			uri.RawQuery += "&" + encoded
+		}
+		return uri.String()
+	}
 	queries := uri.Query()
 	for param, values := range params {
 		for _, value := range values {
